@@ -1461,3 +1461,99 @@ R("reward-withdraw-check-before-debit", ["C03"],
 	if err != nil {
 		return helpers.LogAndReturnFalse(ctx.Logger, rewards.UnableToWithdraw, withdraw.Tags(), err)
 	}"""))
+
+# ------------------------------------------------------------------ C18
+M("delete-allegation-takes-held-lock", "C18", "C18.relock",
+  ("data/evidence/allegation.go", """func (es *EvidenceStore) DeleteAllegationRequest(ID string) (bool, error) {
+""", """func (es *EvidenceStore) DeleteAllegationRequest(ID string) (bool, error) {
+	es.mux.Lock()
+	defer es.mux.Unlock()
+"""))
+M("delegation-add-locks-under-stake", "C18", "C18.relock",
+  ("data/delegation/store.go", """func (st *DelegationStore) AddToAddress(validatorAddress keys.Address, delegatorAddress keys.Address, amount balance.Amount) error {
+""", """func (st *DelegationStore) AddToAddress(validatorAddress keys.Address, delegatorAddress keys.Address, amount balance.Amount) error {
+	st.mux.Lock()
+	defer st.mux.Unlock()
+"""))
+M("chainstate-get-under-write-lock", "C18", "C18.relock",
+  ("storage/chainstate.go", """func (state *ChainState) Set(key StoreKey, val []byte) error {
+	state.Lock()
+	defer state.Unlock()
+""", """func (state *ChainState) Set(key StoreKey, val []byte) error {
+	state.Lock()
+	defer state.Unlock()
+	if old, _ := state.Get(key); len(old) == len(val) && len(val) == 0 {
+		return nil
+	}
+"""))
+M("undelegate-currency-unpinned", "C18", "C18.coin",
+  (NUND, """	if !ud.Amount.IsValid(ctx.Currencies) || ud.Amount.Currency != "OLT" {""", """	if !ud.Amount.IsValid(ctx.Currencies) {"""))
+M("sendpool-validate-currency-case-insensitive", "C18", "C18.coin",
+  ("action/transfer/sendPool.go", """	if currency.Name != sendPool.Amount.Currency {""", """	if !strings.EqualFold(currency.Name, sendPool.Amount.Currency) {"""),
+  ("action/transfer/sendPool.go", """import (""", """import (
+	"strings"
+"""))
+M("fee-currency-case-insensitive", "C18", "C18.coin",
+  (BASE, """	if fee.Price.Currency != feeOpt.FeeCurrency.Name {""", """	if !strings.EqualFold(fee.Price.Currency, feeOpt.FeeCurrency.Name) {"""),
+  (BASE, """import (""", """import (
+	"strings"
+"""))
+M("domain-send-amount-validity-dropped", "C18", "C18.coin",
+  ("action/ons/send.go", """	if !send.Amount.IsValid(ctx.Currencies) {""", """	if false {""", 2))
+M("revert-fix-parse-redeem-length", "C18", "C18.split",
+  ("chains/ethereum/offline_chain_driver.go", """	if len(ss) < 2 {
+		return nil, errors.New("Transaction does not have the required input data")""", """	if len(ss) == 0 {
+		return nil, errors.New("Transaction does not have the required input data")"""))
+M("revert-fix-erc20-lock-length", "C18", "C18.split",
+  ("chains/ethereum/helpers.go", """	if len(ss) < 2 || len(ss[1]) < 128 {
+		return nil, errors.New("Transaction data is invalid")
+	}
+
+	tokenAmount""", """
+	tokenAmount"""))
+M("erc20-redeem-length-too-short", "C18", "C18.split",
+  ("chains/ethereum/helpers.go", """	if len(ss) < 2 || len(ss[1]) < 128 {
+		return nil, errors.New("Transaction data is invalid")
+	}
+	tokenAddress""", """	if len(ss) < 2 || len(ss[1]) < 64 {
+		return nil, errors.New("Transaction data is invalid")
+	}
+	tokenAddress"""))
+M("router-returns-missing-route", "C18", "C18.fallback",
+  ("action/router.go", """	h, ok := r.routes[t]
+	if !ok {
+		r.logger.Error("handler not found", t)
+		return unknownTx{}
+	}
+
+	return h""", """	h, ok := r.routes[t]
+	if !ok {
+		r.logger.Error("handler not found", t)
+	}
+
+	return h"""))
+R("parse-redeem-length-in-one-test", ["C18"],
+  ("chains/ethereum/offline_chain_driver.go", """	if len(ss) < 2 {
+		return nil, errors.New("Transaction does not have the required input data")
+	}
+	if len(ss[1]) < 64 {
+		return nil, errors.New("Transaction data is invalid")
+	}""", """	if len(ss) != 2 || len(ss[1]) < 64 {
+		return nil, errors.New("Transaction data is invalid")
+	}"""))
+R("undelegate-pin-via-coin-currency", ["C18", "C02"],
+  (NUND, """	if !ud.Amount.IsValid(ctx.Currencies) || ud.Amount.Currency != "OLT" {
+		return helpers.LogAndReturnFalse(ctx.Logger, action.ErrInvalidAmount, ud.Tags(), errors.New("invalid undelegate amount"))
+	}
+""", """	if c := ud.Amount.ToCoin(ctx.Currencies); !c.IsValid() || c.Currency.Name != "OLT" {
+		return helpers.LogAndReturnFalse(ctx.Logger, action.ErrInvalidAmount, ud.Tags(), errors.New("invalid undelegate amount"))
+	}
+"""))
+R("evidence-delete-unlocked-helper", ["C18"],
+  ("data/evidence/allegation.go", """func (es *EvidenceStore) DeleteAllegationRequest(ID string) (bool, error) {
+	ok, err := es.delete(es.getAllegationRequestKey(ID))""", """func (es *EvidenceStore) DeleteAllegationRequest(ID string) (bool, error) {
+	return es.deleteAllegationRequestUnlocked(ID)
+}
+
+func (es *EvidenceStore) deleteAllegationRequestUnlocked(ID string) (bool, error) {
+	ok, err := es.delete(es.getAllegationRequestKey(ID))"""))
